@@ -119,6 +119,16 @@ def run(program, res, tier):
             for arm in arms:
                 if any(isinstance(c, ast.Call) and dotted_name(c.func) == "type" for c in ast.walk(arm)):
                     res.ok("C25-S1", f"`{unparse(arm)[:50]}` collects the types of the values")
+                    # an arm that reads the categories instead of the cells has to say which cell holds which category as well (pandas hashes
+                    # object categories through str(): [1, '1', 1] and ['1', 1, '1'] over the categories [1, '1'] hash alike)
+                    txt = unparse(arm)
+                    if ".categories" in txt:
+                        if ".codes" in txt:
+                            res.ok("C25-S1", "the categorical arm hashes the codes (which cell holds which category) with the categories' types")
+                        else:
+                            res.fail_at("C25-S1", hd, "category-cells-not-in-key",
+                                        f"`{txt[:60]}` looks at the categories only: two categorical columns over the same mixed categories [1, '1'] with cells [1, '1', 1] and "
+                                        f"['1', 1, '1'] share a key (pandas hashes object categories through str())", arm)
                 else:
                     res.fail_at("C25-S1", hd, "cell-types-not-collected",
                                 f"`{unparse(arm)[:60]}` stands where the types of a column's values are collected and does not look at types: object cells are hashed through "
